@@ -373,4 +373,52 @@ example :
     (Cw3Flex.execute w.flex w.group "ms" ⟨15, 0⟩ "x" [] (.close 2)).isOk = false := by
   decide
 
+/-! ### without the premise the sticky-status statements are FALSE of the code (consequence of D3) -/
+
+namespace CexJ
+
+def group0 : Cw4Group.State :=
+  match Cw4Group.instantiate ⟨some ⟨true, "adm"⟩, [(⟨true, "a"⟩, 1), (⟨true, "b"⟩, 4), (⟨true, "c"⟩, 4), (⟨true, "d"⟩, 4)]⟩ 5 with
+  | .ok g => g
+  | .error _ => Cw4Group.State.empty
+
+/-- quorum 40 %, threshold 60 % -/
+def inst : InstMsg :=
+  { group := ⟨true, "grp"⟩, threshold := .thresholdQuorum 600000000000000000 400000000000000000,
+    maxVotingPeriod := .height 5, executor := none, deposit := none }
+
+def flex0 : State := match instantiate inst (some group0) with | .ok s => s | .error _ => default
+
+def world0 : World := World.init flex0 group0 CwPlus.Props.C15.Cex.token0 [] "ms" "grp" "tok" 5
+
+/-- In block 10 the admin lowers b, c, d from 4 to 1 (group total 13 → 4), then — still in block 10 — `a` proposes:
+the proposal records total 4.  b, c, d vote with their snapshot weights 4 (start of block 10). -/
+def ops : List Op :=
+  [⟨⟨10, 0⟩, .group "adm" (.updateMembers [] [(⟨true, "b"⟩, 1), (⟨true, "c"⟩, 1), (⟨true, "d"⟩, 1)])⟩,
+   ⟨⟨10, 0⟩, .flex "a" [] (.propose "t" "d" [] none)⟩,
+   ⟨⟨11, 0⟩, .flex "b" [] (.vote 1 .yes)⟩,
+   ⟨⟨12, 0⟩, .flex "c" [] (.vote 1 .no)⟩,
+   ⟨⟨12, 0⟩, .flex "d" [] (.vote 1 .no)⟩]
+
+def final : World := run CwPlus.Props.C15.Cex.noExt 10 world0 ops
+
+end CexJ
+
+example : instantiate CexJ.inst (some CexJ.group0) = .ok CexJ.flex0 := rfl
+
+/-- **The unguarded `passed_justified` is false for cw3-flex** (machine-checked; a consequence of the open known
+finding `C06/flex/propose-after-group-update-in-same-block`, defect D3 — same root cause, seen at the C03 level).
+With the recorded total (4) below the snapshot total (13), b's Yes (4) makes the proposal Passed (5 of 4 ≥ 60 %), and
+it stays stored Passed while c and d vote No: the recorded ballots are 5 Yes / 8 No — 38 % Yes — yet the proposal is
+reported Passed and Execute succeeds at expiry (block 15), although the outcome its recorded ballots imply at that
+block is Rejected.  The hypothesis `hprem` of `passed_justified` (ballots ≤ recorded total) is what fails: 13 > 4. -/
+theorem passed_justified_counterexample :
+    ((CexJ.final.flex.core.proposals.get? 1).map fun p => (p.status, p.votes, p.totalWeight)) = some (.passed, ⟨5, 8, 0, 0⟩, 4) ∧
+    Cw4Group.queryTotalWeight CexJ.final.group (some 10) = 13 ∧
+    ((CexJ.final.flex.core.proposals.get? 1).map fun p => (Outcome p (ballotsOf CexJ.final.flex.core 1) ⟨15, 0⟩).toOption)
+      = some (some .rejected) ∧
+    ((Cw3Flex.queryProposal CexJ.final.flex ⟨15, 0⟩ 1).toOption.map (·.status)) = some .passed ∧
+    (Cw3Flex.execute CexJ.final.flex CexJ.final.group "ms" ⟨15, 0⟩ "x" [] (.execute 1)).isOk = true := by
+  decide
+
 end CwPlus.Props.C03Flex
